@@ -340,8 +340,13 @@ PBT_PROPERTY(limits)
   c.nontrivial(pbt::hashMix(which, pbt::hashMix(L, n * 2 + obj)));
   ExactBuf buf(text);
   auto r = Json::parse(buf.view(), lim);
-  bool strictlyInside = n < L; // "within the configured limits" under every reading of the bound
-  c.label(strictlyInside ? "inside limit" : (n > L + 1 ? "beyond limit" : "at limit"));
+  // "within the configured limits": ParseLimits documents arrayItemsMax / membersMax as the
+  // MAXIMUM number of elements / members, so n == L is within the limit and must be accepted
+  // (the unchanged parser does). depthMax and stringLengthMax are documented less precisely
+  // (depth counted from 0; length tested before the append), so for them only n < L is demanded.
+  bool strictlyInside = (which == 1 || which == 2) ? n <= L : n < L;
+  c.label(strictlyInside ? (n == L ? "exactly at limit (must be accepted)" : "inside limit")
+                         : (n > L + 1 ? "beyond limit" : "at limit"));
   if (strictlyInside && !r.ok)
     c.fail("C13/limits/inside-rejected", pbt::Fmt() << "text within limit rejected: " << r.error.message);
   if (n > L + 1 && r.ok && which != 3)
@@ -455,6 +460,27 @@ PBT_REGRESSION(error_offset_truncated_u)
   auto r = Json::parse(std::string_view(t), ParseLimits{});
   if (r.ok) { c.fail("C13/mutate/accepted-invalid", "truncated \\u escape accepted"); return; }
   if (r.error.where.offset > t.size()) c.fail("C13/mutate/error-offset-outside", pbt::Fmt() << "offset " << r.error.where.offset << " size " << t.size());
+}
+
+PBT_REGRESSION(exactly_at_member_and_item_limits)
+{
+  for (std::size_t L : {1u, 2u, 7u, 100u})
+  {
+    ParseLimits lim;
+    lim.membersMax = L;
+    lim.arrayItemsMax = L;
+    std::string obj = "{", arr = "[";
+    for (std::size_t i = 0; i < L; ++i)
+    {
+      obj += std::string(i ? "," : "") + "\"k" + std::to_string(i) + "\":0";
+      arr += std::string(i ? "," : "") + "0";
+    }
+    obj += "}";
+    arr += "]";
+    c.describe(pbt::Fmt() << "L=" << L);
+    if (!Json::parse(std::string_view(obj), lim).ok) c.fail("C13/limits/inside-rejected", pbt::Fmt() << "object with exactly membersMax=" << L << " members rejected");
+    if (!Json::parse(std::string_view(arr), lim).ok) c.fail("C13/limits/inside-rejected", pbt::Fmt() << "array with exactly arrayItemsMax=" << L << " items rejected");
+  }
 }
 
 PBT_REGRESSION(truncated_object_key)
